@@ -34,7 +34,7 @@ D = os.path.join(SPEC, "config")
 ACTIONS = ["P_FindSkip", "P_FindHit", "P_FindEof", "P_Eof", "P_Blank", "P_Open", "P_Close", "P_NoValue", "P_Value",
            "P_Include", "P_TrailBlank", "P_TrailJunk", "P_TrailEof", "T1", "T2", "T3", "T4", "T5"]
 DEVS = ["ParseSizePanic", "TrailingIgnored", "HostQuoteLax"]
-BUGS_QUICK = ["LineMinus1", "CollapseWhitespace", "LoneQuoteSlice"]
+BUGS_QUICK = ["CollapseWhitespace", "LoneQuoteSlice"]
 BUGS = ["ReverseRoutes", "FirstPatternOnly", "Threads0Accepted", "LineMinus1", "DefaultLogInfo", "ErrFileMain", "LastTargetOnly", "CollapseWhitespace", "LoneQuoteSlice"]
 TO = 3000
 
@@ -115,7 +115,7 @@ def run_replay(ctx, cfgbin, work, path):
 def run_all(ctx, cfgbin, work, thorough):
     tname = "thorough" if thorough else "quick"
 
-    # All TLC runs of steps 1-3 are independent of each other: they run side by side (<= 4 JVMs at a time).
+    # All TLC runs of steps 1-3 are independent of each other: they run side by side (<= 5 JVMs at a time).
     dump = os.path.join(work, "graph.dot")
     sens_jobs = [("dev", d) for d in DEVS] + [("bug", b) for b in (BUGS if thorough else BUGS_QUICK)]
     specs = {
@@ -123,8 +123,8 @@ def run_all(ctx, cfgbin, work, thorough):
         # vacuity guard.  `-coverage 1` makes TLC re-evaluate the (large, constant) case table on every access and run
         # out of memory, so the per-action counts are taken from the dumped state graph of the small family instead
         # (edges are labelled with the action that produced them).
-        "cover": dict(cfg="MC_Config_cover.cfg", workers=2, heap="3g", dump=dump),
-        "live": dict(cfg="MC_Config_live.cfg", workers=2, heap="2g"),
+        # The same run checks termination (liveness under weak fairness) on that small family.
+        "cover": dict(cfg="MC_Config_live.cfg", workers=2, heap="3g", dump=dump),
         "lemmas": dict(cfg="MC_Config_lemmas_%s.cfg" % tname, workers=2, heap="3g"),
         "gen": dict(cfg="Gen_Config_%s.cfg" % tname, workers=1, heap="3g"),
     }
@@ -135,8 +135,8 @@ def run_all(ctx, cfgbin, work, thorough):
         kw = dict(specs[key])
         cfg = kw.pop("cfg")
         return key, run_tlc("MC_Config.tla", cfg, D, timeout=TO, work_id="c15" + re.sub(r"\W", "", key), **kw)
-    order = ["mc", "lemmas", "gen", "cover", "live"] + ["sens:" + n for _, n in sens_jobs]
-    with ThreadPoolExecutor(max_workers=4) as ex:
+    order = ["mc", "lemmas", "gen", "cover"] + ["sens:" + n for _, n in sens_jobs]
+    with ThreadPoolExecutor(max_workers=5) as ex:
         res = dict(ex.map(one, order))
 
     # 1. the model of the code against Meaning, on every case x layout
@@ -152,12 +152,10 @@ def run_all(ctx, cfgbin, work, thorough):
                 counts[m.group(1)] = counts.get(m.group(1), 0) + 1
     os.remove(dump)
     r.coverage = {a: (c, c) for a, c in counts.items()}
-    ctx.add_tlc("vacuity guard: every action of the model is taken (edge labels of the dumped graph, small family)", r)
-    ctx.require_tlc_ok("MC_Config_cover", r)
-    ctx.require_cover("MC_Config_cover", r, ACTIONS)
-    r = res["live"]
-    ctx.add_tlc("the loader always terminates (liveness under weak fairness, small family)", r)
+    ctx.add_tlc("small family: the loader always terminates (liveness under weak fairness) and every action of the model "
+                "is taken (vacuity guard: edge labels of the dumped graph)", r)
     ctx.require_tlc_ok("MC_Config_live", r)
+    ctx.require_cover("MC_Config_live", r, ACTIONS)
     r = res["lemmas"]
     ctx.add_tlc("lemmas: Meaning invariant under permutation / include splitting / unknown keys; defaults; faults found", r)
     ctx.require_tlc_ok("MC_Config_lemmas_%s" % tname, r)
@@ -171,65 +169,6 @@ def run_all(ctx, cfgbin, work, thorough):
 
     # 3. vectors from TLC replayed on the real loader
     g = res["gen"]
-    if g.violation or not g.prints:
-        raise vlib.ToolError("replay: TLC could not evaluate Meaning: %s" % g.out[-1500:])
-    ctx.add_tlc("Meaning of the %d replayed configuration(s)" % len(cases), g)
-    data = "".join(json.dumps(x) + "\n" for x in g.prints)
-    s = summary_of(run_bin(cfgbin, ["replay", work, "12"], stdin_data=data), "replay")
-    ctx.cov["evaluations"] += s["loads"]
-    ctx.cov["traces_validated_against_impl"] += s["loads"]
-    ctx.cov["distinct_nontrivial"] += s["nontrivial"]
-    ctx.sample({"replayed_cases": s["cases"], "loads": s["loads"], "mismatches": s["mismatches"]})
-    for m in s["first"][:5]:
-        ctx.violation(m["what"], {"kind": "config-vector", **m}, dev=attribute(m))
-    return ctx.finish()
-
-
-def run_all(ctx, cfgbin, work, thorough):
-    tname = "thorough" if thorough else "quick"
-
-    # 1. the model of the code against Meaning, on every case x layout
-    r = run_tlc("MC_Config.tla", "MC_Config_%s.cfg" % tname, D, workers=6, timeout=TO, work_id="c15mc", heap="4g")
-    ctx.add_tlc("model of parse_conf/from_tree vs Meaning, Dev={} (%s family)" % tname, r)
-    ctx.require_tlc_ok("MC_Config_%s" % tname, r)
-    # vacuity guard.  `-coverage 1` makes TLC re-evaluate the (large, constant) case table on every access and runs
-    # out of memory, so the per-action counts are taken from the dumped state graph of the small family instead
-    # (edges are labelled with the action that produced them).
-    dump = os.path.join(work, "graph.dot")
-    r = run_tlc("MC_Config.tla", "MC_Config_cover.cfg", D, workers=4, timeout=TO, work_id="c15cov", heap="3g", dump=dump)
-    counts = {}
-    with open(dump, errors="replace") as f:
-        for line in f:
-            m = re.search(r'->.*label="(\w+)"', line)
-            if m:
-                counts[m.group(1)] = counts.get(m.group(1), 0) + 1
-    os.remove(dump)
-    r.coverage = {a: (c, c) for a, c in counts.items()}
-    ctx.add_tlc("vacuity guard: every action of the model is taken (edge labels of the dumped graph, small family)", r)
-    ctx.require_tlc_ok("MC_Config_cover", r)
-    ctx.require_cover("MC_Config_cover", r, ACTIONS)
-    r = run_tlc("MC_Config.tla", "MC_Config_live.cfg", D, workers=2, timeout=TO, work_id="c15live", heap="2g")
-    ctx.add_tlc("the loader always terminates (liveness under weak fairness, small family)", r)
-    ctx.require_tlc_ok("MC_Config_live", r)
-    r = run_tlc("MC_Config.tla", "MC_Config_lemmas_%s.cfg" % tname, D, workers=4, timeout=TO, work_id="c15lem", heap="3g")
-    ctx.add_tlc("lemmas: Meaning invariant under permutation / include splitting / unknown keys; defaults; faults found", r)
-    ctx.require_tlc_ok("MC_Config_lemmas_%s" % tname, r)
-
-    # 2. sensitivity of the model: every deviation and a few plausible bugs must be refuted
-    jobs = [("dev", d) for d in DEVS] + [("bug", b) for b in (BUGS if thorough else BUGS_QUICK)]
-
-    def sens(job):
-        kind, name = job
-        return job, run_tlc("MC_Config.tla", "MC_Config_%s_%s.cfg" % (kind, name), D, workers=2, timeout=TO,
-                            work_id="c15s" + name, heap="2g")
-    with ThreadPoolExecutor(max_workers=3 if thorough else 6) as ex:
-        for (kind, name), sr in ex.map(sens, jobs):
-            ctx.add_tlc("sensitivity: Dev={%s} must violate Conforms/NoCrash" % name, sr)
-            if sr.violation != "invariant":
-                raise vlib.ToolError("model lost sensitivity: Dev={%s} no longer violates Conforms/NoCrash" % name)
-
-    # 3. vectors from TLC replayed on the real loader
-    g = run_tlc("MC_Config.tla", "Gen_Config_%s.cfg" % tname, D, workers=1, timeout=TO, work_id="c15gen", heap="3g")
     if g.violation or not g.prints:
         raise vlib.ToolError("generation failed: %s" % g.out[-2000:])
     ctx.add_tlc("vector generation Gen_Config_%s.cfg" % tname, g)
